@@ -173,6 +173,60 @@ fn after_history_cases(thorough: bool) -> Vec<crate::mcheck::Case> {
     out
 }
 
+
+/// The embedding's side of reuse.  (a) Programs run under a module name of the host's choosing
+/// (`interpret(vm, source, Some(name))`): what a run completed before it failed persists, as for "main".
+/// (b) Reading a global of a module that was never imported finds nothing and changes nothing: the module
+/// can still be imported afterwards, once.
+fn host_side_histories() -> Vec<Expect> {
+    let h = "\u{0}host:";
+    let mut out = Vec::new();
+    let mk = |snippets: Vec<String>, outs: Vec<Vec<&str>>, ends: Vec<&str>, d: serde_json::Value| -> Expect {
+        let mut modules = BTreeMap::new();
+        modules.insert("zz_lib".to_string(), "print(\"load zz_lib\");\nvar answer = 42;\n".to_string());
+        Expect {
+            family: "host_side_histories",
+            request: Request { op: "run".into(), snippets, modules, fuel: Some(1_000_000), ..Default::default() },
+            out: outs.into_iter().map(|v| v.into_iter().map(|x| x.to_string()).collect()).collect(),
+            end: ends.into_iter().map(|x| x.to_string()).collect(),
+            describe: d,
+            nontrivial: true,
+        }
+    };
+    for failing in ["throw 1;", "var z = [][3];", "fn g() { throw \"deep\"; }\ng();", "Fiber.new(|| { throw \"in a fiber\"; }).call();", "try { throw 1; } finally { var w = 2; }"] {
+        for module in ["scratch", "main"] {
+            out.push(mk(
+                vec![
+                    format!("{}run_in:{}:var a = 1;\nvar b = a + 1;", h, module),
+                    format!("{}show_global:{}:b", h, module),
+                    format!("{}run_in:{}:fn f() {{ return a + 10; }}\nvar before = \"set before the failure\";\n{}", h, module, failing),
+                    format!("{}show_global:{}:a", h, module),
+                    format!("{}show_global:{}:before", h, module),
+                    format!("{}run_in:{}:var c = f();", h, module),
+                    format!("{}show_global:{}:c", h, module),
+                ],
+                vec![vec![], vec!["2"], vec![], vec!["1"], vec!["set before the failure"], vec![], vec!["11"]],
+                vec!["ok", "ok", "Unhandled", "ok", "ok", "ok", "ok"],
+                json!({"module": module, "failing": failing}),
+            ));
+        }
+    }
+    // a look at a module that was never imported
+    out.push(mk(
+        vec![format!("{}show_global:zz_lib:answer", h), "import \"zz_lib\";\nprint(zz_lib.answer);\n".to_string(), format!("{}show_global:zz_lib:answer", h), "import \"zz_lib\" as again;\nprint(again == zz_lib);\n".to_string()],
+        vec![vec!["<no such global>"], vec!["load zz_lib", "42"], vec!["42"], vec!["true"]],
+        vec!["ok", "ok", "ok", "ok"],
+        json!({"what": "a host's look at a module that was never imported"}),
+    ));
+    out.push(mk(
+        vec![format!("{}show_global:zz_missing:x", h), "try { import \"zz_missing\"; } catch e { print(type(e)); print(e.context); }\n".to_string()],
+        vec![vec!["<no such global>"], vec!["<class ImportError>", "Unable to read file 'zz_missing.yl' (file not found)."]],
+        vec!["ok", "ok"],
+        json!({"what": "a host's look at a module that does not exist"}),
+    ));
+    out
+}
+
 /// the model: what a snippet prints, how it ends, and the state afterwards
 fn step(s: &St, name: &str) -> (St, Vec<String>, String) {
     let mut n = s.clone();
@@ -491,6 +545,13 @@ pub fn run(ctx: &Ctx) -> Report {
         if st.unsupported * 10 > n {
             crate::pool::machinery_failure("programs_after_histories: more than a tenth of the corpus is outside the model");
         }
+        report.violations.extend(st.violations);
+    }
+    {
+        let cases = host_side_histories();
+        let n = cases.len();
+        let st = expect::run_expect(ctx, &ctx.runner_checked, cases.into_iter(), &|_e, _r| None, &|_e, _p| None);
+        report.cov("host_side_histories", json!(n));
         report.violations.extend(st.violations);
     }
     // third engine: programs fed one top-level statement at a time
